@@ -336,7 +336,8 @@ pub fn gen_desc(k: usize, o: &GenOpts, rng: &mut Rng) -> ElfDesc {
         Sh { name: ".bss".into(), ty: 8, addr: 0x200, off: 0, size: 0x20, link: 0, entsize: 0 },
     ];
     if let Some((a, s)) = got {
-        secs.push(Sh { name: ".got".into(), ty: 1, addr: a, off: 0, size: s, link: 0, entsize: 4 });
+        // sh_entsize of .got is whatever the tool chain wrote (0, 4, or something odd): the entries are 32-bit words
+        secs.push(Sh { name: ".got".into(), ty: 1, addr: a, off: 0, size: s, link: 0, entsize: rng.pick(&[4u32, 4, 0, 8, 2, 16, 1]) });
     }
     if got.is_some() && rng.chance(1, 3) {
         secs.push(Sh { name: ".rela.got".into(), ty: 4, addr: 0, off: 0x180, size: 0, link: 0, entsize: 12 });
@@ -369,6 +370,10 @@ pub fn gen_desc(k: usize, o: &GenOpts, rng: &mut Rng) -> ElfDesc {
         } else {
             let nl = 1 + rng.below(12);
             let mut name = rand_name(rng, nl);
+            if rng.chance(1, 8) {
+                // names a symbol table really contains: file names with blanks, non-ASCII text, empty names
+                name = rng.pick(&["my prog.c", "\u{30d7}\u{30ed}\u{30b0}.c", "", "a b", "caf\u{e9}.o", "x\ty"]).to_string();
+            }
             if rng.chance(1, 10) {
                 name = rng.pick(&["___exit_", "__exit", "___exi", "____exit", "___exit2", "_"]).to_string();
             }
